@@ -23,12 +23,12 @@
 (*  pkg/beacon/dkg/dkg.go ExecuteDKG                                       *)
 (*    gjkr.Execute (abstract outcome)                    GjkrDone          *)
 (*    dkgResult.Publish = SyncMachine over                                 *)
-(*      resultSigningState.Initiate (sign, broadcast)    SendSig           *)
+(*      resultSigningState.Initiate (sign, broadcast)    GjkrDone          *)
 (*      signaturesVerificationState + threshold gate +                     *)
 (*      IsGroupRegistered pre-check of SubmitDKGResult   Verify            *)
 (*      SubmitDKGResult select: slot / submitted event   SubmitDkg,        *)
 (*                                                       ObserveDkg        *)
-(*    Publish ok: local operating members                Resolve           *)
+(*    Publish ok: local operating members                Resolved(..)      *)
 (*    Publish failed: decideMemberFate                   FateEvent,        *)
 (*                                                       FateTimeout       *)
 (*  pkg/beacon/entry/entry.go SignAndSubmit                                *)
@@ -67,7 +67,8 @@ CONSTANTS
     Seat,         \* Seat[i]: the node that holds seat i (function 1..N -> Nodes)
     MaxRounds,    \* DKG rounds
     MaxReqs,      \* relay entry requests
-    MaxDeliver,   \* deliveries of one chain event to one node (> 1: duplicates, late ones are stale)
+    MaxDkgDeliver,   \* deliveries of one DKG started event to one node (> 1: duplicates, late ones are stale)
+    MaxRelayDeliver, \* deliveries of one relay entry requested event to one node
     MaxBad,       \* number of faulty nodes (crash, message loss, deviant GJKR view)
     MaxStops,     \* number of node stops (crashes and graceful restarts)
     MaxViewMis,   \* bound on the members a deviant GJKR view marks as misbehaved (N: no bound)
@@ -166,6 +167,7 @@ VARIABLES
     mon,      \* n -> q -> running MonitorRelayEntry goroutines
     resumed,  \* n -> ResumeSigningIfEligible ran (this lifetime)
     unreg,    \* n -> key the running UnregisterStaleGroups sweep keeps (0: no sweep)
+    swept,    \* n -> rounds whose group registration event the node has handled
     cur,      \* n -> key -> member indexes persisted (Registry!cur)
     arch,     \* n -> key -> member indexes archived  (Registry!arch)
     cache,    \* n -> key -> memberships in memory    (Registry!cache)
@@ -179,7 +181,7 @@ mvars == <<sigs, shares, evq, pendS, pendE>>
 nid   == <<bad, up, stops>>
 ndkg  == <<seen, dlv, jpend, joins>>
 nrel  == <<rdm, rdl, rconf, proc, mon, resumed>>
-nreg  == <<unreg, cur, arch, cache>>
+nreg  == <<unreg, swept, cur, arch, cache>>
 nvars == <<nid, ndkg, nrel, nreg>>
 pvars == <<hon, mb, sg>>
 vars  == <<cvars, mvars, nvars, pvars>>
@@ -197,7 +199,7 @@ HonestMembers == Members \ BadMembers
 SeqRange(s)   == {s[x] : x \in DOMAIN s}
 
 \* DKG member states in which ExecuteDKG is still running
-DkgRunning == {"gjkr", "signed", "ready", "pubfail", "submitted", "left", "keep"}
+DkgRunning == {"gjkr", "signed", "ready", "pubfail", "keep"}
 \* signer states in which SignAndSubmit is still running
 SignRunning == {"collect", "waitslot", "monitor"}
 
@@ -213,7 +215,7 @@ Init ==
     /\ rdm = [n \in Nodes |-> [start |-> 0, prev |-> ""]]
     /\ rdl = [n \in Nodes |-> [q \in Reqs |-> 0]] /\ rconf = [n \in Nodes |-> [q \in Reqs |-> 0]]
     /\ proc = [n \in Nodes |-> <<>>] /\ mon = [n \in Nodes |-> [q \in Reqs |-> 0]]
-    /\ resumed = [n \in Nodes |-> TRUE] /\ unreg = [n \in Nodes |-> 0]
+    /\ resumed = [n \in Nodes |-> TRUE] /\ unreg = [n \in Nodes |-> 0] /\ swept = [n \in Nodes |-> {}]
     /\ cur = [n \in Nodes |-> EmptyReg] /\ arch = [n \in Nodes |-> EmptyReg]
     /\ cache = [n \in Nodes |-> EmptyCache]
     /\ hon = [r \in Rounds |-> [ok |-> TRUE, mis |-> {}]]
@@ -245,7 +247,7 @@ PromptMember(i) == Seat[i] \notin bad /\ up[Seat[i]]
 \* the current window to take
 DkgBusy(r) ==
     \E i \in Members : PromptMember(i) /\ ~mb[r][i].late /\
-        \/ mb[r][i].st \in {"gjkr", "signed", "submitted", "left", "keep"}
+        \/ mb[r][i].st \in {"gjkr", "signed", "keep"}
         \/ mb[r][i].st = "ready" /\ (dslot >= DkgSlot(i) \/ i \in pendS[r])
         \/ mb[r][i].st = "pubfail" /\ i \in evq[r]
 DkgJoinBusy(r) ==
@@ -272,7 +274,7 @@ CloseDkg ==
 
 \* Dedup!AtomicNotify (C37): one test-and-set on the seed
 DeliverDkg(n, r) ==
-    /\ up[n] /\ dkg[r].st # "none" /\ dlv[n][r] < MaxDeliver
+    /\ up[n] /\ dkg[r].st # "none" /\ dlv[n][r] < MaxDkgDeliver
     /\ dlv' = [dlv EXCEPT ![n][r] = @ + 1]
     /\ IF DedupOn /\ r \in seen[n]
           THEN UNCHANGED <<seen, jpend>>
@@ -310,22 +312,17 @@ Outcomes(r, i) ==
     ELSE IF Seat[i] \in bad \/ ~Agreement THEN {Fail} \cup Views(i)
     ELSE IF hon[r].ok THEN {[ok |-> TRUE, key |-> "a", mis |-> hon[r].mis]} ELSE {Fail}
 
-GjkrDone(r, i, o) ==
+\* gjkr.Execute returned; with a result the member enters the publication:
+\* resultSigningState.Initiate signs the result hash and broadcasts the
+\* signature (lost = it never leaves a faulty node)
+GjkrDone(r, i, o, lost) ==
     /\ up[Seat[i]] /\ mb[r][i].st = "gjkr" /\ o \in Outcomes(r, i)
     \* lockstep: the outcome of the prompt members presupposes that all of them take part
     /\ (Prompt /\ PromptMember(i) /\ ~mb[r][i].late) => ~DkgJoinBusy(r)
-    /\ mb' = [mb EXCEPT ![r][i] = IF o.ok THEN [@ EXCEPT !.st = "signed", !.key = o.key, !.mis = o.mis]
+    /\ lost => (Seat[i] \in bad /\ o.ok)
+    /\ mb' = [mb EXCEPT ![r][i] = IF o.ok THEN [@ EXCEPT !.st = "signed", !.key = o.key, !.mis = o.mis, !.sent = TRUE]
                                         ELSE [@ EXCEPT !.st = "out"]]
-    /\ UNCHANGED <<cvars, mvars, nvars, hon, sg>>
-
-\* resultSigningState.Initiate: the signature over the result hash is broadcast
-\* (lost = it never leaves a faulty node)
-SendSig(r, i, lost) ==
-    /\ up[Seat[i]] /\ mb[r][i].st = "signed" /\ ~mb[r][i].sent
-    /\ lost => Seat[i] \in bad
-    /\ mb' = [mb EXCEPT ![r][i].sent = TRUE]
-    /\ sigs' = IF lost THEN sigs
-               ELSE [sigs EXCEPT ![r] = @ \cup {[from |-> i, key |-> mb[r][i].key, mis |-> mb[r][i].mis]}]
+    /\ sigs' = IF o.ok /\ ~lost THEN [sigs EXCEPT ![r] = @ \cup {[from |-> i, key |-> o.key, mis |-> o.mis]}] ELSE sigs
     /\ UNCHANGED <<cvars, shares, evq, pendS, pendE, nvars, hon, sg>>
 
 \* a faulty member signs a second, different result (different receivers may
@@ -336,6 +333,13 @@ Equivocate(r, i, o) ==
     /\ Cardinality({s \in sigs[r] : s.from = i}) < 2
     /\ sigs' = [sigs EXCEPT ![r] = @ \cup {[from |-> i, key |-> o.key, mis |-> o.mis]}]
     /\ UNCHANGED <<cvars, shares, evq, pendS, pendE, nvars, pvars>>
+
+\* Publish returned nil: the member keeps its own view of the operating
+\* members (DkgFate!PublishOk, Resolve / ResolveInvalid)
+Resolved(rec) ==
+    LET ops == FateM!LocalOperating([dq |-> rec.mis, ia |-> {}]) IN
+    IF Cardinality(ops) >= H THEN [rec EXCEPT !.st = "keep", !.ops = ops, !.fate = "own"]
+                             ELSE [rec EXCEPT !.st = "out"]
 
 \* Support (C13): the messages of D as resultSigningState.Receive /
 \* VerifyDKGResultSignatures see them
@@ -352,8 +356,7 @@ SupportersOf(r, i, D) ==
 MustHear(r, i) == IF PromptMember(i) /\ ~mb[r][i].late
                      THEN {s \in sigs[r] : s.from # i /\ PromptMember(s.from) /\ ~mb[r][s.from].late}
                      ELSE {}
-SigWindowOpen(r) == \E j \in Members : PromptMember(j) /\ ~mb[r][j].late /\
-                        (mb[r][j].st = "gjkr" \/ (mb[r][j].st = "signed" /\ ~mb[r][j].sent))
+SigWindowOpen(r) == \E j \in Members : PromptMember(j) /\ ~mb[r][j].late /\ mb[r][j].st = "gjkr"
 
 \* signaturesVerificationState.Initiate, then resultSubmissionState.Initiate
 \* up to the select: the threshold gate, the subscription, IsGroupRegistered
@@ -366,7 +369,7 @@ Verify(r, i, D) ==
                 IF Cardinality(sup) < Gate
                    THEN [@ EXCEPT !.st = "pubfail", !.sup = sup]       \* Publish returns the gate's error
                 ELSE IF dkg[r].st = "accepted" /\ dkg[r].key = mb[r][i].key
-                   THEN [@ EXCEPT !.st = "left", !.sup = sup, !.obs = TRUE]   \* already submitted: nil
+                   THEN Resolved([@ EXCEPT !.sup = sup, !.obs = TRUE])          \* already submitted: nil
                    ELSE [@ EXCEPT !.st = "ready", !.sup = sup]]
     /\ UNCHANGED <<cvars, mvars, nvars, hon, sg>>
 
@@ -376,7 +379,7 @@ SubmitDkg(r, i) ==
     /\ up[Seat[i]] /\ mb[r][i].st = "ready" /\ r = actR /\ dslot >= DkgSlot(i)
     /\ IF dkg[r].st = "open"
           THEN /\ dkg' = [dkg EXCEPT ![r] = [st |-> "accepted", key |-> mb[r][i].key, mis |-> mb[r][i].mis, by |-> i]]
-               /\ mb' = [mb EXCEPT ![r][i] = [@ EXCEPT !.st = "submitted", !.nsub = @ + 1]]
+               /\ mb' = [mb EXCEPT ![r][i] = Resolved([@ EXCEPT !.nsub = @ + 1])]
                /\ pendS' = [pendS EXCEPT ![r] = {j \in Members \ {i} : mb[r][j].st = "ready" /\ up[Seat[j]]}]
                /\ evq' = [evq EXCEPT ![r] = {j \in Members : mb[r][j].st \in {"signed", "ready", "pubfail"} /\ up[Seat[j]]}]
           ELSE /\ mb' = [mb EXCEPT ![r][i] = [@ EXCEPT !.st = "pubfail", !.nsub = @ + 1]]   \* rejected: Publish fails
@@ -388,17 +391,8 @@ SubmitDkg(r, i) ==
 ObserveDkg(r, i) ==
     /\ up[Seat[i]] /\ mb[r][i].st = "ready" /\ i \in pendS[r]
     /\ pendS' = [pendS EXCEPT ![r] = @ \ {i}]
-    /\ mb' = [mb EXCEPT ![r][i] = [@ EXCEPT !.obs = TRUE, !.st = IF LeaveOnSeen THEN "left" ELSE "ready"]]
+    /\ mb' = [mb EXCEPT ![r][i] = IF LeaveOnSeen THEN Resolved([@ EXCEPT !.obs = TRUE]) ELSE [@ EXCEPT !.obs = TRUE]]
     /\ UNCHANGED <<cvars, sigs, shares, evq, pendE, nvars, hon, sg>>
-
-\* Publish returned nil: the member keeps its own view (DkgFate!PublishOk, Resolve)
-Resolve(r, i) ==
-    /\ up[Seat[i]] /\ mb[r][i].st \in {"submitted", "left"}
-    /\ LET ops == FateM!LocalOperating([dq |-> mb[r][i].mis, ia |-> {}]) IN
-       mb' = [mb EXCEPT ![r][i] = IF Cardinality(ops) >= H
-                                     THEN [@ EXCEPT !.st = "keep", !.ops = ops, !.fate = "own"]
-                                     ELSE [@ EXCEPT !.st = "out"]]
-    /\ UNCHANGED <<cvars, mvars, nvars, hon, sg>>
 
 \* DkgFate!EventArrives + DecideKeyMismatch / DecideMisbehaved / DecideStay + Resolve (C05)
 FateEvent(r, i) ==
@@ -425,7 +419,7 @@ Register(r, i) ==
        /\ cur' = IF WriteAhead THEN [cur EXCEPT ![n][k] = @ \cup {i}] ELSE cur
        /\ cache' = [cache EXCEPT ![n][k] = Append(@, i)]
     /\ mb' = [mb EXCEPT ![r][i].st = "registered"]
-    /\ UNCHANGED <<cvars, mvars, nid, ndkg, nrel, unreg, arch, hon, sg>>
+    /\ UNCHANGED <<cvars, mvars, nid, ndkg, nrel, unreg, swept, arch, hon, sg>>
 
 ---------------------------------------------------------------------------
 (* The chain: relay requests                                               *)
@@ -462,7 +456,7 @@ IsInGroup(n, k) == cache[n][k] # <<>>
 \* current request; a confirmed request starts a monitor and, if the node
 \* holds a membership of the group, a deduplicator call
 ConfirmRelay(n, q) ==
-    /\ up[n] /\ req[q].st # "none" /\ rdl[n][q] < MaxDeliver
+    /\ up[n] /\ req[q].st # "none" /\ rdl[n][q] < MaxRelayDeliver
     /\ rdl' = [rdl EXCEPT ![n][q] = @ + 1]
     /\ IF actQ = q /\ req[q].st = "open"
           THEN /\ mon' = [mon EXCEPT ![n][q] = @ + 1]
@@ -541,12 +535,13 @@ SubmitEntry(q, i) ==
           THEN /\ req' = [req EXCEPT ![q] = [@ EXCEPT !.st = "done", !.by = i]]
                /\ sg' = [sg EXCEPT ![q][i] = [@ EXCEPT !.st = "monitor", !.nsub = @ + 1]]
                /\ pendE' = [pendE EXCEPT ![q] = {j \in Members : sg[q][j].st \in SignRunning /\ up[Seat[j]]}]
+               /\ mon' = [n \in Nodes |-> [mon[n] EXCEPT ![q] = 0]]
           ELSE \* error: IsEntryInProgress decides between nil and the error
                /\ sg' = [sg EXCEPT ![q][i] = [@ EXCEPT !.st = IF req[q].st = "open" THEN "failed" ELSE "left",
                                                          !.nsub = @ + 1]]
                /\ pendE' = [pendE EXCEPT ![q] = @ \ {i}]
-               /\ UNCHANGED req
-    /\ UNCHANGED <<dkg, actR, actQ, dslot, rslot, stale, sigs, shares, evq, pendS, nvars, hon, mb>>
+               /\ UNCHANGED <<req, mon>>
+    /\ UNCHANGED <<dkg, actR, actQ, dslot, rslot, stale, sigs, shares, evq, pendS, nid, ndkg, rdm, rdl, rconf, proc, resumed, nreg, hon, mb>>
 
 ObserveEntry(q, i) ==
     /\ up[Seat[i]] /\ sg[q][i].st \in SignRunning /\ i \in pendE[q]
@@ -562,6 +557,8 @@ RelayTimeout(q, i) ==
     /\ UNCHANGED <<cvars, sigs, shares, evq, pendS, nvars, hon, mb>>
 
 \* node.MonitorRelayEntry: the timeout block came before a submitted event
+\* (a monitor that got the submitted event first returns silently: the
+\* monitors of a request are forgotten when the entry is accepted)
 ReportTimeout(n, q) ==
     /\ up[n] /\ mon[n][q] > 0 /\ q = actQ /\ rslot = N
     /\ mon' = [mon EXCEPT ![n][q] = @ - 1]
@@ -579,8 +576,11 @@ RelayBusy(q) ==
           \/ sg[q][i].st \in SignRunning /\ i \in pendE[q]
     \/ \E n \in Nodes \ bad : ~up[n] \/ rconf[n][q] > 0 \/ rdl[n][q] = 0 \/ ~resumed[n]
 
+\* (once the entry is accepted the request's clock only matters to signers that
+\* started too late to be told: they run into the timeout block)
 AdvanceRelay ==
     /\ actQ # 0 /\ rslot < N
+    /\ req[actQ].st = "open" \/ \E i \in Members : sg[actQ][i].st \in SignRunning /\ i \notin pendE[actQ]
     /\ Prompt => ~RelayBusy(actQ)
     /\ rslot' = rslot + 1
     /\ UNCHANGED <<dkg, req, actR, actQ, dslot, stale, mvars, nvars, pvars>>
@@ -606,9 +606,12 @@ MarkStale(r) ==
     /\ UNCHANGED <<dkg, req, actR, actQ, dslot, rslot, mvars, nvars, pvars>>
 
 \* OnGroupRegistered handler: go UnregisterStaleGroups(latest)
+\* (a sweep of a node that holds no other group asks nothing and changes nothing: skipped)
+SweepMatters(n, r) == \E k \in KeyIxs : k # ChainKey(r) /\ IsInGroup(n, k)
 DeliverGroupRegistered(n, r) ==
-    /\ up[n] /\ dkg[r].st = "accepted" /\ unreg[n] = 0
+    /\ up[n] /\ dkg[r].st = "accepted" /\ unreg[n] = 0 /\ SweepMatters(n, r) /\ r \notin swept[n]
     /\ unreg' = [unreg EXCEPT ![n] = ChainKey(r)]
+    /\ swept' = [swept EXCEPT ![n] = @ \cup {r}]
     /\ UNCHANGED <<cvars, mvars, nid, ndkg, nrel, cur, arch, cache, pvars>>
 
 StaleKeys == {k \in KeyIxs : RoundOf(k) \in stale /\ dkg[RoundOf(k)].st = "accepted" /\ k = ChainKey(RoundOf(k))}
@@ -621,12 +624,12 @@ ArchiveOne(n, k) ==
     /\ cur' = [cur EXCEPT ![n] = RegM(cur[n], arch[n], cache[n])!Archived(cur[n], arch[n], {k})[1]]
     /\ arch' = [arch EXCEPT ![n] = RegM(cur[n], arch[n], cache[n])!Archived(cur[n], arch[n], {k})[2]]
     /\ cache' = [cache EXCEPT ![n][k] = <<>>]
-    /\ UNCHANGED <<cvars, mvars, nid, ndkg, nrel, unreg, pvars>>
+    /\ UNCHANGED <<cvars, mvars, nid, ndkg, nrel, unreg, swept, pvars>>
 
 SweepDone(n) ==
     /\ up[n] /\ unreg[n] # 0
     /\ unreg' = [unreg EXCEPT ![n] = 0]
-    /\ UNCHANGED <<cvars, mvars, nid, ndkg, nrel, cur, arch, cache, pvars>>
+    /\ UNCHANGED <<cvars, mvars, nid, ndkg, nrel, swept, cur, arch, cache, pvars>>
 
 ---------------------------------------------------------------------------
 (* process life cycle                                                      *)
@@ -658,7 +661,7 @@ Kill(n) ==
     /\ evq' = [r \in Rounds |-> evq[r] \ SeatsOf(n)]
     /\ pendS' = [r \in Rounds |-> pendS[r] \ SeatsOf(n)]
     /\ pendE' = [q \in Reqs |-> pendE[q] \ SeatsOf(n)]
-    /\ UNCHANGED <<cvars, sigs, shares, bad, dlv, rdl, cur, arch, hon>>
+    /\ UNCHANGED <<cvars, sigs, shares, bad, dlv, rdl, swept, cur, arch, hon>>
 
 \* a faulty node may die at any time, a correct one is only stopped when idle
 Stop(n) == /\ stops < MaxStops /\ (n \in bad \/ NodeIdle(n)) /\ Kill(n)
@@ -668,7 +671,7 @@ Start(n) ==
     /\ ~up[n]
     /\ up' = [up EXCEPT ![n] = TRUE]
     /\ cache' = [cache EXCEPT ![n] = RegM(cur[n], arch[n], cache[n])!Loaded(cur[n], {})]
-    /\ UNCHANGED <<cvars, mvars, bad, stops, ndkg, nrel, unreg, cur, arch, pvars>>
+    /\ UNCHANGED <<cvars, mvars, bad, stops, ndkg, nrel, unreg, swept, cur, arch, pvars>>
 
 \* node.ResumeSigningIfEligible: no deduplicator involved
 Resume(n) ==
@@ -683,16 +686,14 @@ Resume(n) ==
 DoStartDkg      == \E r \in Rounds : StartDkg(r)
 DoDeliverDkg    == \E n \in Nodes, r \in Rounds : DeliverDkg(n, r)
 DoJoinDkg       == \E n \in Nodes, r \in Rounds : JoinDkg(n, r)
-GjkrDoneAny(r, i) == \E o \in Outcomes(r, i) : GjkrDone(r, i, o)
+GjkrDoneAny(r, i) == \E o \in Outcomes(r, i), lost \in BOOLEAN : GjkrDone(r, i, o, lost)
 DoGjkrDone      == \E r \in Rounds, i \in Members : GjkrDoneAny(r, i)
 EquivocateAny(r, i) == \E o \in Views(i) : Equivocate(r, i, o)
 DoEquivocate    == \E r \in Rounds, i \in Members : EquivocateAny(r, i)
-DoSendSig       == \E r \in Rounds, i \in Members, lost \in BOOLEAN : SendSig(r, i, lost)
 VerifyAny(r, i) == \E D \in SUBSET {s \in sigs[r] : s.from # i} : Verify(r, i, D)
 DoVerify        == \E r \in Rounds, i \in Members : VerifyAny(r, i)
 DoSubmitDkg     == \E r \in Rounds, i \in Members : SubmitDkg(r, i)
 DoObserveDkg    == \E r \in Rounds, i \in Members : ObserveDkg(r, i)
-DoResolve       == \E r \in Rounds, i \in Members : Resolve(r, i)
 DoFateEvent     == \E r \in Rounds, i \in Members : FateEvent(r, i)
 DoFateTimeout   == \E r \in Rounds, i \in Members : FateTimeout(r, i)
 DoRegister      == \E r \in Rounds, i \in Members : Register(r, i)
@@ -720,8 +721,8 @@ DoStart         == \E n \in Nodes : Start(n)
 DoResume        == \E n \in Nodes : Resume(n)
 
 MemberNext(i) ==
-    \/ \E r \in Rounds : GjkrDoneAny(r, i) \/ SendSig(r, i, FALSE) \/ VerifyAny(r, i) \/ SubmitDkg(r, i)
-                          \/ ObserveDkg(r, i) \/ Resolve(r, i) \/ FateEvent(r, i) \/ FateTimeout(r, i) \/ Register(r, i)
+    \/ \E r \in Rounds : GjkrDoneAny(r, i) \/ VerifyAny(r, i) \/ SubmitDkg(r, i)
+                          \/ ObserveDkg(r, i) \/ FateEvent(r, i) \/ FateTimeout(r, i) \/ Register(r, i)
     \/ \E q \in Reqs : SendShare(q, i, FALSE) \/ AcceptAny(q, i) \/ CompleteAlone(q, i) \/ SubmitEntry(q, i)
                           \/ ObserveEntry(q, i) \/ RelayTimeout(q, i)
 NodeNext(n) ==
@@ -735,7 +736,7 @@ FirstDelivery(n) ==
 
 Next ==
     \/ DoStartDkg \/ AdvanceDkg \/ CloseDkg \/ DoDeliverDkg \/ DoJoinDkg
-    \/ DoGjkrDone \/ DoSendSig \/ DoEquivocate \/ DoVerify \/ DoSubmitDkg \/ DoObserveDkg \/ DoResolve
+    \/ DoGjkrDone \/ DoEquivocate \/ DoVerify \/ DoSubmitDkg \/ DoObserveDkg
     \/ DoFateEvent \/ DoFateTimeout \/ DoRegister
     \/ DoRequestRelay \/ AdvanceRelay \/ CloseRelay \/ DoConfirmRelay \/ DoDedupRelay
     \/ DoSendShare \/ DoAcceptShare \/ DoCompleteAlone \/ DoSubmitEntry \/ DoObserveEntry
@@ -761,7 +762,7 @@ TypeOK ==
     /\ \A q \in Reqs : req[q].st \in {"none", "open", "done", "timedout"}
     /\ actR \in {0} \cup Rounds /\ actQ \in {0} \cup Reqs /\ dslot \in 0..N /\ rslot \in 0..N
     /\ \A r \in Rounds, i \in Members :
-          mb[r][i].st \in {"idle", "gjkr", "signed", "ready", "pubfail", "submitted", "left", "keep", "registered", "out"}
+          mb[r][i].st \in {"idle", "gjkr", "signed", "ready", "pubfail", "keep", "registered", "out"}
     /\ \A q \in Reqs, i \in Members :
           sg[q][i].st \in {"idle", "collect", "waitslot", "monitor", "left", "timedout", "failed"}
 
